@@ -59,6 +59,11 @@ CHECKS = {
             "values incl. non-exception returns; invalid error arguments on every decorator. The monitor inspects the exception "
             "object the caller catches and the factory's received objects.",
             "Executions produced only; exhaustive over the listed finite product (factory subsets sampled beyond 24/64).", "3/C09"),
+    "C13": ("exploration", "runtime monitoring: differential event traces of paired def / async def renderings of the same program under identical probes",
+            "Each generated program is rendered twice and driven with identical truth assignments and body scripts; the monitor compares "
+            "the probe logs and outcomes of the two renderings and both against the model; async-only condition forms are mixed into "
+            "the async twin; coroutine contracts on sync callables must raise ValueError.",
+            "Executions produced only; deterministic trampoline instead of an event loop.", "3/C13"),
     "C14": ("exploration", "runtime monitoring: differential run of contracted callables/classes against their undecorated twins, identity and metadata probes",
             "Callables over sampled C05 signatures x kinds x decorator stacks with interleaved foreign decorators and abstractmethod: "
             "identity of arguments/result/exception, metadata, __wrapped__ chain, contract list ownership, foreign decorators run once; "
